@@ -188,6 +188,15 @@ def gates(ctx, R):
     ext_locals = {a.targets[0].id for a in walk_no_nested(lk.node) if isinstance(a, ast.Assign) and len(a.targets) == 1
                   and isinstance(a.targets[0], ast.Name) and isinstance(a.value, ast.Attribute) and a.value.attr == "extension"}
 
+    from .geval import lookup_eval
+    lev = lookup_eval(ctx, R)
+    if lev is not None and lev[0] == "bad":
+        ctx.violation("E2", lk, "model:lookup-gate", lev[1], node=lk.node,
+                      witness="a command of an extension is accepted although the script does not require that extension (or refused although it does)")
+    elif lev is not None:
+        ctx.holds("E2", "%s: %d (name, registry, flag) cases answer as the command tables prescribe (look-alike extension names included)"
+                  % (lk.qualname, lev[1]))
+    _prev_e2 = ctx.demote(["E2"], "the evaluation of the lookup (E2)", keep_keys=("model:",)) if lev is not None and lev[0] == "ok" else None
     for r in rets:
         for nd in cfg.nodes_for(r):
             if cfg.guarded(nd, gate2):
@@ -199,8 +208,15 @@ def gates(ctx, R):
                               witness="`fileinto \"x\";` without `require \"fileinto\"` is accepted")
     if not any(raise_name(r) == "ExtensionNotLoaded" for r in walk_no_nested(lk.node) if isinstance(r, ast.Raise)):
         ctx.violation("E2", lk, "no-raise", "the lookup never raises ExtensionNotLoaded", node=lk.node)
+    if _prev_e2 is not None:
+        ctx.restore(_prev_e2)
     # the registry consulted is the class-level list
     # ---- E3 ----------------------------------------------------------------------
+    # the argument interpreter followed over sample sequences with the extension loaded / not loaded / the check switched off (G11)
+    from .geval import g11, arg_eval
+    g11(ctx, R, aspects=("gate",))
+    _full = arg_eval(ctx, R)
+    _prev_e3 = ctx.demote(["E3"], "G11") if _full is not None and _full[0] == "ok" else None
     ctx.rule("E3", "interpreter: an optional slot is recorded only past the slot's extension test")
     cna = R.check_next_arg
     cfgc = ctx.cfg(cna)
@@ -263,6 +279,8 @@ def gates(ctx, R):
                 ctx.violation("E3", cna, "tag-gate", "an optional (tagged) argument is recorded on a path that did not establish that the slot's "
                               "extension is loaded", node=st, witness="`fileinto :copy \"x\";` with only `require \"fileinto\"` is accepted")
     ctx.need("E3", "optional-slot stores", nopt, 1)
+    if _prev_e3 is not None:
+        ctx.restore(_prev_e3)
 
     # ---- E4 ----------------------------------------------------------------------
     ctx.rule("E4", "value gate: True for an extension-bound value only when loaded; both call sites pass the caller's flag")
@@ -321,6 +339,8 @@ def gates(ctx, R):
     elif vev is not None:
         ctx.holds("E4", "%s: %d (slot definition, tag spelling, flag, registry) cases answer as the definition says (extension-bound values in any "
                   "letter case need their extension unless the caller's flag is off)" % (vv.qualname, vev[1]))
+    _prev_e4 = ctx.demote(["E4"], "the evaluation of the value helper (E4)", keep_keys=("model:", "value-gate-flag")) \
+        if vev is not None and vev[0] == "ok" else None
     k = 0
     for r in walk_no_nested(vv.node):
         if isinstance(r, ast.Return) and r.value is not None and const_value(ctx.program, vv, r.value) is not False:
@@ -334,6 +354,8 @@ def gates(ctx, R):
                     ctx.violation("E4", vv, "value-gate", "an extension-bound tag value is accepted without the registry test", node=r,
                                   witness="`if header :regex \"a\" \"b\" {...}` without `require \"regex\"` is accepted")
     ctx.need("E4", "extension-value accept paths", k, 1)
+    if _prev_e4 is not None:
+        ctx.restore(_prev_e4)
     calls = [c for c in walk_no_nested(cna.node) if isinstance(c, ast.Call) and isinstance(c.func, ast.Attribute)
              and c.func.attr == vv.name]
     ctx.need("E4", "calls of the value helper", len(calls), 2)
@@ -406,6 +428,15 @@ def gates(ctx, R):
     # what complete_cb adds comes from its own argument
     if R.Require is not None and "complete_cb" in R.Require.methods:
         cb = R.Require.methods["complete_cb"]
+        from .geval import require_eval
+        rqv = require_eval(ctx, R)
+        if rqv is not None and rqv[0] == "bad":
+            ctx.violation("E6", cb, "model:require", rqv[1], node=cb.node,
+                          witness="an extension that no require names counts as loaded, or a required one does not")
+        elif rqv is not None:
+            ctx.holds("E6", "%s: %d (argument shape, registry) cases load exactly the names the command wrote" % (cb.qualname, rqv[1]))
+        _prev_e6 = ctx.demote(["E6"], "the evaluation of complete_cb (E6)", keep_keys=("model:", "registry-not-emptied", "reset-", "foreign-registry",
+                                                                                     "complete-cb-")) if rqv is not None and rqv[0] == "ok" else None
         src_ok = any(isinstance(s_, ast.Subscript) and "arguments" in norm(s_.value) for s_ in ast.walk(cb.node))
         if src_ok:
             ctx.holds("E6", "%s takes the names from the command's own arguments" % cb.qualname)
@@ -466,6 +497,8 @@ def gates(ctx, R):
                     ctx.violation("E6", cb, "registry-foreign-value:%s" % (norm(v_)[:40] if v_ is not None else "?"), "complete_cb loads %s, which is "
                                   "not one of the names written in the require command" % (norm(v_)[:60] if v_ is not None else "?"), node=st_,
                                   witness="an extension that no require names counts as loaded (e.g. vacation through vacation-seconds)")
+        if _prev_e6 is not None:
+            ctx.restore(_prev_e6)
     # callers of complete_cb
     callers = []
     for f in ctx.program.all_funcs():
@@ -520,7 +553,12 @@ def gates(ctx, R):
                                 and a.value.id in init.params for a in walk_no_nested(init.node)):
         ctx.holds("E7", "ExtensionNotLoaded stores the extension name it is given")
     # every raise passes the extension that was tested
+    from .geval import lookup_eval, arg_eval
+    _lev, _aev = lookup_eval(ctx, R), arg_eval(ctx, R)
     for f in (R.lookup, cna, vv):
+        # what the exception names was compared by the evaluations (E2 for the lookup, G11 for the argument interpreter and its value helper)
+        _followed = (_lev is not None and _lev[0] == "ok") if f is R.lookup else (_aev is not None and _aev[0] == "ok")
+        _prev_e7 = ctx.demote(["E7"], "the evaluation", keep_keys=("message", "switch-")) if _followed else None
         for r in walk_no_nested(f.node):
             if isinstance(r, ast.Raise) and raise_name(r) == "ExtensionNotLoaded":
                 a = r.exc.args[0] if isinstance(r.exc, ast.Call) and r.exc.args else None
@@ -537,6 +575,8 @@ def gates(ctx, R):
                 else:
                     ctx.violation("E7", f, "raise-names-other:%s" % (norm(a) if a is not None else "?"), "ExtensionNotLoaded is raised naming %s, "
                                   "which is not the extension found missing" % (norm(a) if a is not None else "nothing"), node=r)
+        if _prev_e7 is not None:
+            ctx.restore(_prev_e7)
 
 
 def bound_arg_fn(call, func, pname):
@@ -581,7 +621,7 @@ def value_gate_eval(ctx, R, vv, cev, switches):
     for d in defs:
         for tag in tags:
             for flag in (True, False):
-                for loaded in ([], ["regex"], ["relational", "regex"]):
+                for loaded in ([], ["regex"], ["relational", "regex"], ["reg", "relation", "ex", ""]):
                     ext = {k: v for k, v in d.get("extension_values", {}).items()}.get(tag.lower())
                     plain = tag.lower() in d.get("values", [])
                     if "values" not in d and "extension_values" not in d:
